@@ -117,8 +117,75 @@ def consistency_family(rep, tier):
     rep.cov.update({"consistency_matrix_evaluations": len(index), "consistency_rejected": len([m for m in tt.msgs if 'l' in m]), "consistency_negative_controls_passed": nc})
     return len(index)
 
+
+# ------------------------------------------------------------------ IEEE-754 scalar arithmetic (MechFloat, MC_C01f)
+IEEE_A = ["0.1", "0.7", "1.3", "2.9", "3", "10", "1000000.5", "0.001", "16777216", "9007199254740992", "123456.789", "0.3",
+          "-0.7", "-3", "-1.1", "7"]
+IEEE_B = ["0.3", "1.1", "3", "7", "0.9", "13", "1", "0.0001", "1.5", "-0.1", "-7", "49", "1000.1", "0.2", "-1", "6"]
+CMP = {"<": lambda a, b: a < b, "<=": lambda a, b: a <= b, ">": lambda a, b: a > b, ">=": lambda a, b: a >= b,
+       "==": lambda a, b: a == b, "!=": lambda a, b: a != b}
+
+def ieee_family(rep, tier):
+    """scalar float results = the exact rational result of the OBSERVED operand values rounded to nearest, ties to even
+    (MechFloat.RoundA; the Python transcription lib/ieee.py must first reproduce every case TLC emits for the miniature formats)"""
+    import ieee
+    cfgs = ["MC_C01f_a.cfg"] + (["MC_C01f_b.cfg"] if tier != "quick" else [])
+    nmodel = 0; states = 0
+    for cfg in cfgs:
+        t = tlc.run("MC_C01f", cfg, workers=16, timeout=3000, tag=cfg[:-4])
+        if t.violations or not t.ok:
+            rep.fail("C01/model/float", "TLC reported a violation of a MechFloat law: " + "; ".join(t.errors[:3]), {"log": t.log})
+        n, bad = ieee.selftest_against_cases(t.cases)
+        if bad or n == 0:
+            raise tlc.TlcError(f"lib/ieee.py does not reproduce MechFloat.RoundA on the miniature format ({cfg}): {bad}")
+        nmodel += n; states += t.generated
+    ops = ["+", "-", "*", "/"] + list(CMP)
+    reqs = []; meta = []
+    for kind in ("f64", "f32"):
+        def lit(x): return x if kind == "f64" else f"{x}<f32>"
+        for op in ops:
+            st = [f"a{i} := {lit(v)}" for i, v in enumerate(IEEE_A)] + [f"b{j} := {lit(v)}" for j, v in enumerate(IEEE_B)]
+            st += [f"a{i} {op} b{j}" for i in range(len(IEEE_A)) for j in range(len(IEEE_B))]
+            reqs.append({"id": len(reqs), "mode": "session", "stmts": st, "opts": {"shape": False}})
+            meta.append((kind, op))
+    outs = execpool.run_requests(reqs, nworkers=16, timeout=300)
+    checked = 0; skipped = 0
+    for req, (resp, oc), (kind, op) in zip(reqs, outs, meta):
+        sig = f"C01/{op}/{kind}/ss/ieee"
+        if oc != "ok" or "steps" not in (resp or {}):
+            rep.fail(f"C01/{op}/{kind}/host-{oc}", f"scalar {op} on {kind}: interpreter process {oc}", {"stmts": req["stmts"][:4]}); continue
+        st = resp["steps"]; na, nb = len(IEEE_A), len(IEEE_B)
+        av = [absval.absval(s["v"]) if s.get("r") == "ok" else None for s in st[:na]]
+        bv = [absval.absval(s["v"]) if s.get("r") == "ok" else None for s in st[na:na + nb]]
+        F = ieee.FORMATS[kind]
+        for i in range(na):
+            for j in range(nb):
+                a, b, s = av[i], bv[j], st[na + nb + i * nb + j]
+                text = req["stmts"][na + nb + i * nb + j]
+                if not a or not b or a[0] != 'num' or b[0] != 'num' or a[1] != kind or b[1] != kind: skipped += 1; continue
+                if op in CMP:
+                    want = ('bool', CMP[op](a[2], b[2]))
+                else:
+                    w = ieee.float_op(F, op, a[2], b[2])
+                    if w is None: skipped += 1; continue
+                    want = ('num', kind, w)
+                replay = {"stmts": [req["stmts"][i], req["stmts"][na + j], text], "operands": [str(a[2]), str(b[2])], "expected": str(want[-1])}
+                if s.get("r") != "ok":
+                    rep.fail(sig + "/rejected", f"a = {float(a[2])!r}, b = {float(b[2])!r} ({kind}): a {op} b rejected ({s.get('class')})", replay); continue
+                got = absval.absval(s["v"])
+                if got != want:
+                    rep.fail(sig + "/wrong-value", f"a = {float(a[2])!r}, b = {float(b[2])!r} ({kind}): a {op} b = {absval.short(got)}, IEEE-754 (exact result rounded to nearest even) gives {absval.short(want)}", replay)
+                checked += 1
+    # negative control: the oracle must tell a result that is one unit in the last place off
+    x = ieee.float_op(ieee.BINARY64, "/", Fraction(1), Fraction(3))
+    assert x == Fraction(1.0 / 3.0) and x != Fraction(1.0 / 3.0 + 2 ** -54)
+    log(f"[C01] IEEE-754 scalar family: lib/ieee.py reproduces {nmodel} MechFloat cases; {checked} scalar float results checked, {skipped} skipped (overflow / undefined)")
+    rep.cov.update({"ieee_model_cases": nmodel, "ieee_model_states": states, "ieee_scalar_results_checked": checked, "ieee_skipped": skipped})
+    return checked
+
 def run(rep, tier, seed):
     ncons = consistency_family(rep, tier)
+    ncons += ieee_family(rep, tier)
     cfg = "MC_C01_quick.cfg" if tier == "quick" else "MC_C01_thorough.cfg"
     t = tlc.run("MC_C01", cfg, workers=16, timeout=3000)
     if t.violations or not t.ok:
